@@ -42,6 +42,8 @@ def sibling_reference_sites(ck, rule):
 
 
 def check(ck):
+    from .memo import check_new_memo_tables
+    ck.run(check_new_memo_tables, ck, "C16.M1", ('reference', 'base', 'runner_local', 'call_stack', 'context'))
     R1, R2, R3, R4, R5 = ("C16.R%d" % i for i in range(1, 6))
     ck.rule(R1, "the hash input contains the context args under the reserved key iff non-empty; the body is called "
                 "with the effective kwargs without them", 4)
